@@ -20,8 +20,8 @@ pub fn apply_operations(
     txn: &mut dyn StorageTxn,
     operations: &Operations,
 ) -> (r: Result<()>)
-    requires old(txn).inv(), !old(txn).st().committed,
-    ensures final(txn).inv(),
+    requires old(txn).inv(),
+    ensures final(txn).inv(), final(txn).stored() == old(txn).stored(),
         // only the task set changes, also on an error (the caller then drops the transaction)
         final(txn).st() == (TxnView { tasks: final(txn).st().tasks, ..old(txn).st() }),
         //@ob C05 apply_operations.equals-one-at-a-time-application-under-the-documented-rules
@@ -36,7 +36,7 @@ pub fn apply_operations(
     ) -> (r: Result<Option<&'t mut TaskMap>>)
         requires old(txn).inv(), cache_ok(old(txn).st().tasks, old(tasks)@)
         ensures
-            final(txn).inv(), final(txn).st() == old(txn).st(),
+            final(txn).inv(), final(txn).st() == old(txn).st(), final(txn).stored() == old(txn).stored(),
             //@ob C05 get_cache.returns-the-effective-task-and-caches-absence
             match r {
                 Ok(Some(tm)) => {
@@ -65,9 +65,9 @@ pub fn apply_operations(
         tasks: &mut HashMap<Uuid, Option<TaskMap>>,
         txn: &mut dyn StorageTxn,
     ) -> (r: Result<()>)
-        requires old(txn).inv(), !old(txn).st().committed, cache_ok(old(txn).st().tasks, old(tasks)@)
+        requires old(txn).inv(), cache_ok(old(txn).st().tasks, old(tasks)@)
         ensures
-            final(txn).inv(),
+            final(txn).inv(), final(txn).stored() == old(txn).stored(),
             final(txn).st() == (TxnView { tasks: final(txn).st().tasks, ..old(txn).st() }),
             //@ob C05 flush_cache.writes-through-without-changing-the-effective-state
             r is Ok ==> {
@@ -89,7 +89,7 @@ pub fn apply_operations(
     let ghost t0 = txn.st().tasks;
     for operation in it_operation: operations
         invariant
-            s0 == old(txn).st(), t0 == s0.tasks, txn.inv(), !txn.st().committed,
+            s0 == old(txn).st(), t0 == s0.tasks, txn.inv(), txn.stored() == old(txn).stored(),
             txn.st() == (TxnView { tasks: txn.st().tasks, ..s0 }),
             cache_ok(txn.st().tasks, tasks@),
             //@ob C05 apply_operations.loop-invariant: storage overlaid by the cache equals the sequential result of the prefix
@@ -127,7 +127,7 @@ pub fn apply_operations(
     proof { assert(operations@.take(operations@.len() as int) =~= operations@); }
     while let Some((uuid, _)) = tasks.iter().next()
         invariant
-            s0 == old(txn).st(), t0 == s0.tasks, txn.inv(), !txn.st().committed,
+            s0 == old(txn).st(), t0 == s0.tasks, txn.inv(), txn.stored() == old(txn).stored(),
             txn.st() == (TxnView { tasks: txn.st().tasks, ..s0 }),
             cache_ok(txn.st().tasks, tasks@),
             eff(txn.st().tasks, tasks@) =~~= apply_l_seq(t0, operations@),
